@@ -293,3 +293,6 @@ def run(chk, facts, tier):
     envs_every_iteration(chk, facts)
     literal_exemption(chk, facts)
     monotone(chk, facts)
+    # validate_with_level must level-check every template of the set (shared with C03)
+    from rules import c03_validate
+    c03_validate.check(chk, facts)
